@@ -163,7 +163,7 @@ theorem step_universal (c : Cfg) (hmax : 1 ≤ c.max) (s : St) (r : Res) :
 theorem stype_cases (t : SType) : t = .soft ∨ t = .hard := by cases t <;> simp
 
 theorem spec_step (c : Cfg) (hmax : 1 ≤ c.max) (sp : SpecSt) (s : St) (r : Res) (hr : Rel c sp s) :
-    specStep c sp r.state (obsOf ((stepCore c s r).1, (stepCore c s r).2, true)) = none ∧
+    specStep c sp r.state (obsOf c ((stepCore c s r).1, (stepCore c s r).2, true)) = none ∧
     Rel c (specNext c sp r.state) (stepCore c s r).1 := by
   obtain ⟨hT, hF⟩ := hr
   obtain ⟨u0, u1, u2, u3, u4⟩ := step_universal c hmax s r
